@@ -51,13 +51,13 @@ def gen_specs(rng, n):
         if rng.random() < .45:
             s += "." + rng.choice(["0", "1", "2", "3", "6", "10", "20", "5"])
         if rng.random() < .8:
-            s += rng.choice("bcdeEfFgGnosxX%")
+            s += rng.choice("bcdeEfFgGnosxX%") if rng.random() < .97 else rng.choice("NyAjDSC")
         out.append(s)
     return out
 
 
 def malformed(rng, n):
-    alpha = "<>=^+- #0123456789,_.bcdeEfFgGnosxX%z{}é!:"
+    alpha = "<>=^+- #0123456789,_.bcdeEfFgGnosxX%z{}é!:NyA"
     out = ["", " ", "{", "}", ".", "..", ".x", "10.", "1,,", ",_", "_,", "+-", "##", "00", "<<", "x<<", "=", "=0", "0=", "é", "éé", "é<é", ".5.5", "1e", "ss", "d5", "5d5",
            "99999999999999999999", ".99999999999999999999", "2147483648", ".2147483648", "4294967296d", "1000000", ",.2f", "_b", ",b", "_x", ",x", "_d", ",e", "_f", ",n", "_n", ",c", ",s", ".2c", ".2d", ".2x", "#s", "#c", "+s", " s", "=s", "0s", "05s", "z", "zf", "z.2f", "zd"]
     for _ in range(n):
@@ -191,11 +191,14 @@ def classify(kind, v, spec, py, rs):
         py2 = py_format(v, rest)
         if py2[0] == rs[0] and (py2[0] == "ERR" or py2[1] == rs[1]):
             return "leading-conversion-accepted-in-format-spec"
-        if not rest.startswith("!") and classify(kind, v, rest, py2, rs):
+        if rest[:2] not in ("!s", "!r", "!a", "!b") and classify(kind, v, rest, py2, rs):
             return "leading-conversion-accepted-in-format-spec"
         return None
     if f is None:
         return None
+    if kind == "str" and pk == "OK" and rs == ("ERR", "PrecisionTooBig") and f["prec"] is not None and int(f["prec"]) > 2147483647 and f["type"] in (None, "s"):
+        # exactly: the specification parser refuses any precision above i32::MAX; for text the reference takes it (nothing is truncated)
+        return "string-precision-above-i32-max-rejected" if py == py_format(v, spec.replace("." + f["prec"], ".2147483647", 1)) else None
     t = f["type"]
     grp = f["group"]
     isfloat = kind == "float"
@@ -274,6 +277,13 @@ def classify(kind, v, spec, py, rs):
         tail = ("0" if f["zero"] else "") + (f["width"] or "")
         spec2 = base + tail if f["prec"] is None else base + ("#" if f["alt"] else "") + tail + "." + f["prec"] + "g"
         model = py_format(v, spec2)
+        if f["prec"] is not None and v == v and abs(v) != float("inf"):
+            # ... except where the two differ: 'g' turns to exponent form from decimal exponent p on, the crate (like Python
+            # without a type) from p-1 on. At exponent p-1 the crate's text is Python's own, so a difference there is no
+            # part of this deviation.
+            pp = max(int(f["prec"]), 1)
+            if pp <= 400 and int(("%.*e" % (pp - 1, abs(v))).split("e")[1]) == pp - 1:
+                return None
         return "float-no-type-with-precision-or-alt" if model == rs else None
     return None
 
@@ -353,6 +363,15 @@ def run(res):
             items.append((s, "str", rand_str() if wild else rng.choice(STRS)))
         else:
             items.append((s, "bool", rng.random() < .5))
+    # precisions from 2^31 on: both sides answer at once (an error, or text that is simply not truncated)
+    for pr in ("2147483648", "2147483649", "4294967295", "4294967296", "9999999999", "99999999999999999", "9223372036854775807"):
+        for pre in ("", "5", ">10", "é^7", "08", "+"):
+            for t in ("", "s", "f", "d", "g", "%", "c", "x", "N"):
+                sp = pre + "." + pr + t
+                items.append((sp, "str", rng.choice(STRS)))
+                items.append((sp, "float", rng.choice(FLOATS)))
+                items.append((sp, "int", rng.choice(INTS)))
+                items.append((sp, "bool", True))
     # a small exhaustive core grid
     for t in "bcdeEfFgGnosxX%" + " ":
         for w in ("", "8", "08"):
